@@ -263,15 +263,6 @@ theorem C18_rewrite_only_signatures_full_fails : ¬ C18_rewrite_only_signatures_
   revert this
   decide
 
-theorem mapTail_getElem? {α : Type} (f : α → α) (l : List α) (i : Nat) :
-    (mapTail f l)[i]? = if i = 0 then l[i]? else l[i]?.map f := by
-  cases l with
-  | nil => simp [mapTail]
-  | cons a as =>
-    cases i with
-    | zero => simp [mapTail]
-    | succ n => simp [mapTail]
-
 /-- …and it holds for every manifest in which no block token contains a newline, i.e. in which no
 line ends in a block locator (true of every valid manifest: a stream has at least one file token). -/
 theorem C18_rewrite_only_signatures_partial (mt id : Str) (hid : ' ' ∉ id)
